@@ -52,6 +52,7 @@ def make_classes_job(ctx, proto, workers, seed):
     data = job["data"] + extra
     ctx.rng.shuffle(data)
     job["data"] = data
+    job["retire"] = 1 if workers > 1 else 0      # dynamic workers: one worker is told to quit during the data phase
     return job
 
 
@@ -69,7 +70,8 @@ def check(ctx):
                 "stand-alone payload of exactly one datagram, none twice, every datagram with data once.")
     ctx.assumptions += ["'decodes successfully' is settled by the stand-alone real decoder: message and no error = counted, no message = not counted, message with an error (or an sFlow datagram without a publishable sample) = either",
                         "loopback UDP; pacing against the collector's own counters; the outgoing queue (1000) is never filled"]
-    ctx.tlc_model("PipelineMC", "mc.cfg", files={"mc.cfg": c12.PIPE_CFG % dict(dg="MCDgrams", early="FALSE", alias="FALSE", close="TRUE")}, timeout=900)
+    c12.pipeline_model(ctx, thorough, retire=True)
+    ctx.tlc_must_fail("PipelineMC", "drop.cfg", files={"drop.cfg": c12.pipe_cfg(dg="MCDgrams2", retire=1, drops="TRUE")}, expect="CountsExact", workers=8)
     # ---- worker side
     drv = ctx.go_build_test("vflow", ["vflow/pipeline_verif_test.go"])
     jobs = []
@@ -101,9 +103,12 @@ def check(ctx):
                           case, key=proto + ":decoded-count")
         rows.append({"ev": "Reset"})
         index.append((job, None))
-        for e in r["events"]:
+        for k, e in enumerate(r["events"]):
             rows.append(e)
             index.append((job, e))
+            if e["ev"] in ("Deq", "Consume", "Probe", "Gone"):
+                # one evaluation per datagram a real worker took, per message the producer took, per pool probe
+                ctx.count([proto, job["workers"], job["seed"], k, e["ev"], e.get("d"), e.get("p")], nontrivial=e["ev"] != "Probe" or bool(e.get("got")))
     out = ctx.tlc("PipelineTrace", "PipelineTrace.cfg", workers=1, timeout=1500, heap="6g",
                   files={"trace.ndjson": "".join(json.dumps(x) + "\n" for x in rows)})
     ctx.states += out.distinct
